@@ -287,6 +287,29 @@ def gen_running_link(rng, steps=120, mode=None):
 
 
 # ---------------------------------------------------------------- forged packets at a running endpoint
+def claimed_expansion(hexstr):
+    """sum of the lengths the bitfield-rle tokens of a payload claim (0 if it is not even tokenisable)"""
+    if hexstr in ("-", ""):
+        return 0
+    b = bytes.fromhex(hexstr)
+    i, total = 0, 0
+    while i < len(b):
+        v, shift, k = 0, 0, 0
+        while True:
+            if i >= len(b) or k > 9:
+                return total
+            c = b[i]; i += 1; k += 1
+            v |= (c & 127) << shift; shift += 7
+            if c < 128:
+                break
+        if v & 1:
+            total += v >> 2
+        else:
+            total += v >> 1; i += v >> 1
+        if total > (1 << 40):
+            return total
+    return total
+
 def gen_forged(rng, enc, steps=50):
     """Endpoint 0 (handles per config) reaches Running through a real peer; then forged packets of
     every malformed kind arrive under the peer's magic.  `enc(ref, inputs)` encodes with the real codec."""
@@ -352,6 +375,10 @@ def gen_forged(rng, enc, steps=50):
             raw = rng.choice(["80", "ffffffffffffffffffff01", "8180808004", "00", "0401", "-",
                               hexs([rng.randrange(128) for _ in range(rng.randrange(1, 9))]),
                               hexs([rng.randrange(128, 256), rng.randrange(1, 40)] + [rng.randrange(256) for _ in range(rng.randrange(0, 6))])])
+            # payloads whose run tokens claim a huge (but admissible) expansion are the codec level's business
+            # (p_C14: the unary-number model needs minutes for them); here they would only stall the model
+            if 50000 < claimed_expansion(raw) <= 20000000:
+                raw = "8180808004"
             L.append("msg 0 %d input %s 0 %d -1 %s" % (peer_magic, st_ok, nxt, raw))
         elif r < 0.68:    # wrong per-player byte shapes
             kind = rng.choice(["short", "odd", "long", "empty", "mixed"])
